@@ -27,7 +27,7 @@ func init() {
 			"C16.R7 the loop over a decoded list has no exit other than exhaustion",
 			"C16.R8 os.IsNotExist / IsExist / IsPermission / IsTimeout in the save step are not applied to an error re-made with fmt.Errorf(%w)",
 			"C16.R1 taint of the live-config path value into destructive argument positions (os.Rename old path, os.Remove*, os.Create, os.WriteFile, os.Truncate, os.OpenFile with write flags, viper.WriteConfig*)",
-			"C16.R2 publish-rename source == argument of a dominating, error-checked viper.WriteConfigAs; destination == live-config path",
+			"C16.R2 publish-rename source == argument of a dominating, error-checked viper.WriteConfigAs (package function, or the method on a store of its own that was filled by a loop over viper.AllSettings()); destination == live-config path",
 			"C16.R3 control dependence of the cache updates in the updater loop (also when the cache is a map of entries updated by a helper method); the remembered object is the state field of the received update itself, not a value rebuilt from the JSON text; SENDALL arm ranges over the cache",
 			"C16.R3 (addition) nothing is deleted from the replay caches, in the updater or in functions handed a cache; C16.R4 (addition) destinations of viper.UnmarshalKey have no slice/map field set before decoding",
 			"C16.R4 key sets: viper.UnmarshalKey constants vs ClientUpdate tag constants vs no-save table; saveState loop guard",
